@@ -214,6 +214,8 @@ AccExpect(c, xs, ks) ==
           getent |-> [i \in DOMAIN ks |-> EntOrNone(c.pairs, ks[i])]]
     [] c.k \in {"Index", "Branch"} ->
          [size |-> Len(c.vals),
+          ient |-> [i \in 1..Len(c.vals) |-> c.vals[i].e],      \* Branch: the positional attributes i0, i1, ...
+
           getent |-> [i \in DOMAIN ks |-> IF ks[i] >= 0 /\ ks[i] < Len(c.vals) THEN Some(c.vals[ks[i] + 1].e) ELSE None]]
     [] OTHER -> [none |-> TRUE]
 
